@@ -66,6 +66,29 @@ UG: list = _mk(_gen_srcs())
 # Instances of tuple subclasses (namedtuples): a separate pool, used by C03 for tuple / sequence-like targets
 UX: list = _mk(["NTup(1, 'a')", "NPair(1, 2)", "NPair(True, 2)"])
 
+# Instances of flag enumerations (a separate pool): the named single-bit members and the instances that iterating the
+# class does NOT yield -- zero, composites, and (IntFlag, boundary KEEP) a value with an undeclared bit
+UF: list = _mk(["FPerm.R", "FPerm.W", "FPerm.X", "FPerm(0)", "FPerm.R | FPerm.W", "FPerm.R | FPerm.W | FPerm.X",
+                "IMode.A", "IMode.B", "IMode(0)", "IMode.A | IMode.B", "IMode(4)"])
+
+
+def _callables() -> list:
+    """Reference functions of a few callable signatures (vp.ty.callsig_function): members of their own callable type,
+    definite non-members of every signature that permits a call they do not run."""
+    sigs = [
+        (),
+        (("a", ty.PK, False, "int"),),
+        (("a", ty.PO, True, "str"), ("kw", ty.VK, False, "int")),
+        (("a", ty.PK, True, "str"), ("kw", ty.VK, False, "int")),
+        (("a", ty.KO, False, "str"),),
+        (("args", ty.VA, False, "int"), ("kw", ty.VK, False, "int")),
+        (("a", ty.PK, False, "int"), ("b", ty.PK, True, "str")),
+    ]
+    return [Item(f"<def ({ty.callsig_params_text(ps)}) -> None>", ty.callsig_function(ps)) for ps in sigs]
+
+
+UC: list = _callables()
+
 
 def _eq_cross_type(a, b) -> bool:
     try:
